@@ -72,8 +72,9 @@ where
                     break;
                 },
                 Err(err) => {
-                    error!("ObserverWorker unexpected error: {:?}", err);
-                    panic!("ObserverWorker unexpected error: {:?}", err);
+                    // A failed request (e.g. background create/close/restore that does not apply in the
+                    // current state, or a failed blob creation) must not stop background maintenance
+                    error!("ObserverWorker error, request skipped: {:?}", err);
                 }
             }
         }
